@@ -96,7 +96,7 @@ ASSUMPTIONS = [
     'property does not speak about output directories',
 ]
 BUDGET = {'quick': {'cases': 20000, 'shards': 16, 'seconds': 150, 'shrink_s': 20},
-          'thorough': {'cases': 800000, 'shards': 16, 'seconds': 840, 'shrink_s': 45}}
+          'thorough': {'cases': 600000, 'shards': 16, 'seconds': 840, 'shrink_s': 45}}
 # fractions of generated cases showing the class at least once; about half of what the quick tier measures
 FLOORS = {'nt-name-collision': 0.15, 'nt-job-closure-with-repeated-names': 0.03, 'req-use-stacked': 0.08,
           'req-use-kw': 0.15, 'req-use-mixed': 0.05, 'req-use-soft': 0.1, 'req-make-named': 0.1,
